@@ -18,11 +18,11 @@ def bounds(tier):
 
 def assume(a, ps):
     return [a[0] == ps, z3.ULT(a[1], 1 << 12), z3.UGE(a[1], 1), z3.ULT(a[5], 1 << 12), z3.UGE(a[5], 1)] + \
-           [z3.ULE(a[i], 1) for i in (2, 3, 4, 6, 7, 8, 9, 10)]
+           [z3.ULE(a[i], 1) for i in (2, 3, 4, 6, 7, 8, 9, 10)] + [z3.ULE(a[11], 2)]
 
 
 def slices(tier, rng):
-    out = [Slice('unrelated-ps%d' % ps, 't_unrelated', 11, lambda a, ps=ps: assume(a, ps), opts={'must_reach': ['ok/ok']}, ctx={'t': 'u'}) for ps in (4, 8)]
+    out = [Slice('unrelated-ps%d' % ps, 't_unrelated', 12, lambda a, ps=ps: assume(a, ps), opts={'must_reach': ['ok/ok']}, ctx={'t': 'u'}) for ps in (4, 8)]
     out.append(Slice('modtype-ps4', 't_modtype', 4, lambda a: [a[0] == 4, z3.ULT(a[1], 1 << 12), z3.UGE(a[1], 1), z3.ULT(a[2], 1 << 12), z3.UGE(a[2], 1), z3.ULE(a[3], 1)],
                      opts={'must_reach': ['ok/ok']}, ctx={'t': 'modtype'}))
     return out
@@ -40,9 +40,12 @@ def leaf_queries(I, a, leaf, py, sl):
         if is_ok(o1) and is_err(o2):
             return [Query('adding-an-unrelated-valid-module-keeps-the-build-accepted', z3.BoolVal(True))]
         return []
-    names = ('m', 'n') if sl.ctx.get('t') != 'modtype' else ('p::q',)
-    d = differs(module_part(o1, names), module_part(o2, names))
-    return [Query('observed-modules-are-identical', as_z3(d))]
+    if sl.ctx.get('t') == 'modtype':
+        return [Query('observed-modules-are-identical', as_z3(differs(module_part(o1, ('p::q',)), module_part(o2, ('p::q',)))))]
+    # n is observed too, unless it is n itself that gains the unreferenced type (a[11] == 2)
+    d_m = differs(module_part(o1, ('m',)), module_part(o2, ('m',)))
+    d_n = differs(module_part(o1, ('n',)), module_part(o2, ('n',)))
+    return [Query('observed-modules-are-identical', z3.Or(as_z3(d_m), z3.And(a[11] != 2, as_z3(d_n))))]
 
 
 def same_outcome(native, expected): return pair_same_outcome(native, expected)
@@ -57,7 +60,10 @@ def describe(template, args):
     if template == 't_modtype':
         return ('// pointer size %d\nmodule p::q: #[size(%d), align(1)] extern type %s; #[packed] pub type R { pub f: %s }\n'
                 'module p: (first build: empty; second build: #[size(%d), align(1)] extern type %s;)') % (a[0], a[1], 'S' if a[3] else 'q', 'S' if a[3] else 'q', a[2], 'S' if a[3] else 'q')
+    ti = a[11] if len(a) > 11 else 0
     u = [x for x, f in (('type R', a[3]), ('extern type S (size %d)' % a[5], a[4]), ('type RVftable', a[6]), ('enum K', a[7]), ('use m', a[8]), ('impl R { #[address(4096)] pub fn from_u(&self); }', a[10] if len(a) > 10 else 0)) if f]
     return ('// pointer size %d\nmodule n: #[size(%d), align(1)] extern type S;\nmodule m: use n; #[packed] pub type R { %spub p: *const R, pub f: S } '
             'pub enum K: u32 { A }\nmodule u (unrelated, added %s): %s') % (a[0], a[1], 'vftable { pub fn f(&self); }, ' if a[2] else '',
-                                                                           'first' if a[9] else 'last', ', '.join(u) or '(empty)')
+                                                                           'first' if a[9] else 'last', ', '.join(u) or '(empty)') + (
+        '' if not ti else '\n(m imports the type by path: `use n::S;`, declares `pub type S2 { pub w: u32 }` and R has `pub g: *const S2`%s)' % (
+            '; in the second build n also declares `#[align(8)] pub type S2 { pub a: u64, pub b: u64 }`' if ti == 2 else ''))
